@@ -53,9 +53,13 @@ pub enum Op {
     ConConst,
     /// constrain over committed variables (and the constant) only
     ConCommitted,
+    /// constrain(LinearCombination::default()): a combination without any term (still one constraint row)
+    ConEmpty,
     /// constrain(expression tree - const): the tree is built with every linear-combination
     /// operator (seed, depth) -- C15
     ConTree(u64, usize),
+    /// constrain(expression tree without any variable leaf - const)
+    ConTreeConst(u64, usize),
     /// multiply(tree, tree): both operands are expression trees built with the operators (the prover
     /// evaluates them to synthesise the wires) -- C15
     MulTree(u64, usize),
@@ -94,6 +98,9 @@ pub struct Shape {
     /// register the randomized closures after this many first-phase operations (None = after all)
     #[serde(default)]
     pub register_at: Option<usize>,
+    /// committed values and gate inputs are the literals 0, 1, -1, 2, ... instead of symbolic values
+    #[serde(default)]
+    pub literal_witness: bool,
 }
 
 impl Shape {
@@ -108,6 +115,7 @@ impl Shape {
             phase2: p2.iter().map(|v| v.to_vec()).collect(),
             coef: Coef::Sym,
             lc_width: 0,
+            literal_witness: false,
             register_at: None,
         }
     }
@@ -183,6 +191,8 @@ pub struct Shared<G: AffineRepr> {
     pub coef: Coef,
     pub coef_rng: rand_chacha::ChaChaRng,
     pub lc_width: usize,
+    pub literal_witness: bool,
+    pub lit_count: usize,
     pub err: ErrPlan,
     pub vars: Vec<(Variable<FOf<G>>, FOf<G>)>,
     pub v: Vec<FOf<G>>,
@@ -213,7 +223,20 @@ pub struct Shared<G: AffineRepr> {
 impl<G: AffineRepr> Shared<G> {
     pub fn draw(&mut self, kind: &str) -> FOf<G> {
         if self.recording {
-            let v = self.src.fresh(kind);
+            let v = if self.literal_witness && (kind == "w" || kind == "v") {
+                let k = self.lit_count;
+                self.lit_count += 1;
+                match k % 7 {
+                    0 => FOf::<G>::zero(),
+                    1 | 4 => FOf::<G>::one(),
+                    2 => -FOf::<G>::one(),
+                    3 => FOf::<G>::from(2u64),
+                    5 => FOf::<G>::zero(),
+                    _ => FOf::<G>::from(3u64),
+                }
+            } else {
+                self.src.fresh(kind)
+            };
             self.tape.push(v);
             v
         } else {
@@ -526,7 +549,14 @@ pub fn run_ops<G: AffineRepr, CS: RoleCS<G>>(cs: &mut CS, ops: &[Op], shr: &Rc<R
                 let o = l * r + go;
                 let (lv, rv, ov) =
                     // the constant comes last in the left operand and first in the right one
-                    cs.multiply(lca + LinearCombination::from(ca), LinearCombination::from(cb) + lcb);
+                    match sh.coef {
+                        Coef::Sym => cs.multiply(lca + LinearCombination::from(ca), LinearCombination::from(cb) + lcb),
+                        // literal 1 and -1 as separate constant terms of the operands (as in `1 - b`)
+                        Coef::Mixed(_) => {
+                            let one = FOf::<G>::one();
+                            cs.multiply(LinearCombination::from(one) + lca + LinearCombination::from(ca - one), LinearCombination::from(cb + one) + lcb - one)
+                        }
+                    };
                 sh.handles.push(format!("{},{},{}", show_var(&lv), show_var(&rv), show_var(&ov)));
                 sh.gates.push((l, r, o));
                 sh.set_var(lv, l);
@@ -542,6 +572,12 @@ pub fn run_ops<G: AffineRepr, CS: RoleCS<G>>(cs: &mut CS, ops: &[Op], shr: &Rc<R
                 if sh.err.gate.iter().any(|(g, _)| *g == i) {
                     cs.role_set_gate(i, l, r, o);
                 }
+            }
+            Op::ConEmpty => {
+                sh.n_explicit_con += 1;
+                cs.constrain(LinearCombination::default());
+                sh.con_vals.push(FOf::<G>::zero());
+                sh.cons.push((vec![], FOf::<G>::zero()));
             }
             Op::Con | Op::ConConst | Op::ConCommitted | Op::ConSum => {
                 let (lc, val, terms) = match op {
@@ -571,15 +607,14 @@ pub fn run_ops<G: AffineRepr, CS: RoleCS<G>>(cs: &mut CS, ops: &[Op], shr: &Rc<R
                 let ca = match sh.coef {
                     Coef::Sym => sh.draw("k"),
                     // a constant term that is exactly 1, -1 or 0
-                    Coef::Mixed(_) => {
-                        use rand::Rng;
-                        match sh.coef_rng.gen_range(0..4u32) {
-                            0 => FOf::<G>::one(),
-                            1 => -FOf::<G>::one(),
-                            2 => FOf::<G>::zero(),
-                            _ => sh.draw("k"),
-                        }
-                    }
+                    // (cycled over the explicit constraints so that every pattern occurs in every
+                    // mixed-coefficient skeleton with enough constraints)
+                    Coef::Mixed(_) => match q % 4 {
+                        0 => FOf::<G>::one(),
+                        1 => -FOf::<G>::one(),
+                        2 => FOf::<G>::zero(),
+                        _ => sh.draw("k"),
+                    },
                 };
                 cs.constrain(LinearCombination::from(ca) + lc + LinearCombination::from(c - ca));
                 // value of the constraint under the tracked assignment (e on the recording side)
@@ -638,11 +673,12 @@ pub fn run_ops<G: AffineRepr, CS: RoleCS<G>>(cs: &mut CS, ops: &[Op], shr: &Rc<R
                     cs.role_set_gate(i, l, r, o);
                 }
             }
-            Op::ConTree(seed, depth) => {
+            Op::ConTree(seed, depth) | Op::ConTreeConst(seed, depth) => {
                 use rand::Rng;
                 let mut trng = rand_chacha::ChaChaRng::seed_from_u64(*seed);
-                let handles: Vec<Variable<FOf<G>>> = sh.vars.iter().map(|v| v.0).collect();
-                let vals: Vec<FOf<G>> = sh.vars.iter().map(|v| v.1).collect();
+                let wire_free = matches!(op, Op::ConTreeConst(_, _));
+                let handles: Vec<Variable<FOf<G>>> = if wire_free { vec![] } else { sh.vars.iter().map(|v| v.0).collect() };
+                let vals: Vec<FOf<G>> = if wire_free { vec![] } else { sh.vars.iter().map(|v| v.1).collect() };
                 let tree = {
                     let mut coef = |r: &mut rand_chacha::ChaChaRng| -> FOf<G> {
                         match r.gen_range(0..8u32) {
@@ -730,6 +766,8 @@ pub fn new_shared<G: AffineRepr>(shape: &Shape, err: &ErrPlan, src: Box<dyn Vals
         coef: shape.coef.clone(),
         coef_rng: rand_chacha::ChaChaRng::seed_from_u64(seed),
         lc_width: shape.lc_width,
+        literal_witness: shape.literal_witness,
+        lit_count: 0,
         err: err.clone(),
         vars: vec![],
         v: vec![],
